@@ -308,6 +308,30 @@ ntt_inverse!(c10_ntt_inv_n2, 2, 9);
 //@ asserts: inverse interpolates; forward(inverse(v)) = v
 ntt_inverse!(c10_ntt_inv_n4, 4, 9);
 
+//@ harness: c10_ntt_inv_short_input
+//@ prop: C10
+//@ tier: quick
+//@ cost: 60
+//@ funcs: ntt::ntt_inv (input shorter than the transform size: implicit zero padding)
+//@ bounds: field GF(17); size 4 with a 3-element and a 1-element input; every input
+//@ asserts: the result interpolates the zero-padded value vector (scaling by 1/size, not 1/len)
+#[kani::proof]
+#[kani::unwind(9)]
+pub fn c10_ntt_inv_short_input() {
+    let vals = [any_f(), any_f(), any_f()];
+    let len: usize = if kani::any() { 3 } else { 1 };
+    let mut coeffs = [Field8::zero(); 4];
+    assert!(ntt_inv(&mut coeffs, &vals[..len], 4).is_ok());
+    let pw: [u32; 4] = powers::<4>(ROOT[2]);
+    let c = [u(coeffs[0]), u(coeffs[1]), u(coeffs[2]), u(coeffs[3])];
+    for j in 0..4 {
+        let want = if j < len { u(vals[j]) } else { 0 };
+        assert_eq!(horner(&c, pw[j]), want);
+    }
+    kani::cover!(len == 1);
+    kani::cover!(len == 3);
+}
+
 // ---------------------------------------------------------------------------------------------
 // error reporting (shipped fields, symbolic size)
 
